@@ -271,7 +271,7 @@ func main() {
 		in := fs.String("in", "", "scenarios")
 		out := fs.String("out", "", "trace file")
 		fs.Parse(args)
-		n, err := isolate.RunWith("muxtable-child", *in, *out, nil, 5*time.Second, map[string]any{"ops": []int{}})
+		n, err := isolate.RunWith("muxtable-child", *in, *out, nil, 5*time.Second, map[string]any{"ops": []int{}, "blocked": false})
 		if err != nil {
 			fail(err)
 		}
